@@ -173,7 +173,7 @@ fn state_service_child(tier: &str, only_hangups: bool) -> i32 {
         let name = if smol { "smol" } else { "tokio" };
         let plans = vec![
             (format!("{name}/notified-state-service/<=2conns/4events"), StateScen { smol, max_conns: 2, max_events: 4, bursts: vec![B::Watch, B::Get, B::Sets(1), B::Sets(2), B::Sets(9), B::Sets(12), B::OnceGet], delay_polls: true }),
-            (format!("{name}/notified-state-service/<=3conns/{}events", if th { 5 } else { 4 }), StateScen { smol, max_conns: 3, max_events: if th { 5 } else { 4 }, bursts: vec![B::Watch, B::Sets(1), B::Sets(10), B::OnceGet], delay_polls: th }),
+            (format!("{name}/notified-state-service/<=3conns/{}events", if th { 5 } else { 4 }), StateScen { smol, max_conns: 3, max_events: if th { 5 } else { 4 }, bursts: vec![B::Watch, B::Sets(1), B::Sets(10), B::OnceGet], delay_polls: true }),
             // subscribers that hang up: the state's other subscribers, later subscriptions and the callers of Set are owed what they were owed before
             (format!("{name}/notified-state-service/subscribers-that-hang-up/<=3conns/{}events", if th { 6 } else { 5 }), StateScen { smol, max_conns: 3, max_events: if th { 6 } else { 5 }, bursts: vec![B::Watch, B::Sets(1), B::Sets(2), B::Hangup], delay_polls: true }),
         ];
@@ -192,6 +192,22 @@ fn state_service_child(tier: &str, only_hangups: bool) -> i32 {
 
 /// `Server::run` over the shipped transports and listeners with plain std clients (children of
 /// the C08 and C18 checks).  Prints one JSON line.
+/// Only the streaming call with a 700 KB item, over both transports (child of the C10 check).
+fn c10_real_child(tier: &str) -> i32 {
+    use realsrv::{Ending, RealSrv, K};
+    let cfg = Config { max_wall: std::time::Duration::from_secs(tier_pick(tier, 60, 900)), violation_beats_nondeterminism: true, ..Default::default() };
+    let mut phases = Vec::new();
+    for smol in [false, true] {
+        let h = RealSrv { smol, max_clients: 2, bursts: vec![vec![K::W, K::P], vec![K::P, K::W]], endings: vec![Ending::Stays], fairness: false, paired: true };
+        let pname = format!("{}/real-listener+transport/stream-with-a-700KB-item", if smol { "smol" } else { "tokio" });
+        let st = explore(&pname, h.to_json(), &h, &cfg);
+        eprintln!("[real-server child] phase {pname}: {} executions, {} violation classes, {:.1}s", st.evals, st.violations.len(), st.wall);
+        phases.push(st);
+    }
+    println!("{}", xplore::report::child_json(&phases, "C19"));
+    0
+}
+
 fn realsrv_child(tier: &str, fairness: bool) -> i32 {
     use realsrv::{Ending, RealSrv, K};
     let cfg = Config { max_wall: std::time::Duration::from_secs(tier_pick(tier, 60, 900)), violation_beats_nondeterminism: true, ..Default::default() };
@@ -217,7 +233,7 @@ fn realsrv_child(tier: &str, fairness: bool) -> i32 {
         if !fairness {
             // calls and replies larger than the kernel's socket buffers: the server's write of a reply
             // is taken in pieces while the client reads
-            let h = RealSrv { smol, max_clients: 2, bursts: vec![vec![K::G], vec![K::P, K::G]], endings: vec![Ending::Stays, Ending::ClosesUnread], fairness: false, paired: true };
+            let h = RealSrv { smol, max_clients: 2, bursts: vec![vec![K::G], vec![K::P, K::G], vec![K::W, K::P]], endings: vec![Ending::Stays, Ending::ClosesUnread], fairness: false, paired: true };
             let pname = format!("{name}/real-listener+transport/<=2clients/300KB-calls-and-replies");
             let st = explore(&pname, h.to_json(), &h, &cfg);
             eprintln!("[real-server child] phase {pname}: {} executions, {} violation classes, {:.1}s", st.evals, st.violations.len(), st.wall);
@@ -489,6 +505,7 @@ fn main() {
         Some("c01-child") => c01_child(&tier),
         Some("c02-child") => c02_child(&tier),
         Some("c08-child") => realsrv_child(&tier, false),
+        Some("c10-real-child") => c10_real_child(&tier),
         Some("c18-child") => realsrv_child(&tier, true),
         Some("--replay") => replay(args.get(1).map(|s| s.as_str()).unwrap_or("")),
         _ => {
